@@ -12,7 +12,8 @@ ASSUMPTIONS = [
     'the oracle recomputes every release instant and colour by the property\'s own recurrence in Python floats with the same expression order and demands equality; '
     'the envelope, level-bound and peak-spacing inequalities are evaluated on the observed debit instants (`update_time` at the moment of `out.put`) with a tolerance of '
     '4 ulp per summand (of the byte figures, and of the instants scaled by rate/8), because token levels and instants are rounded sums',
-    'the shaper process on the real kernel refines the FifoServer LTS: checked by replay (labels from Process.target), not proved',
+    'the shaper process on the real kernel refines the FifoServer LTS: checked by replay (labels from Process.target); for the TokenBucket '
+    'written as a process on the kernel MODEL it is a theorem (Props/C11K.lean), and that program is compared bit for bit with the real TokenBucket (tbk leg)',
 ]
 EXTRA_MODULES = ('OnlVerif.Props.C11K',)
 TRUSTED_EXTRA = ['the kernel guarantees (G1-G3) that make `tick` admissible only at quiescence are theorems of model K (C01), assumed for the device LTS',
